@@ -124,6 +124,24 @@ pub fn dispatch(op: &str, f: &[String]) -> Option<String> {
                 }
             }
         }
+        // pep440 <spec> <version> : what the PEP 440 library says: "<specOk><verOk><contains>" (contains = 0 unless both parse)
+        "pep440" => {
+            use std::str::FromStr;
+            use pep508_rs::pep440_rs::{Version, VersionSpecifiers};
+            let sp = std::panic::catch_unwind(|| VersionSpecifiers::from_str(&f[0]).ok()).unwrap_or(None);
+            let v = std::panic::catch_unwind(|| Version::from_str(&f[1]).ok()).unwrap_or(None);
+            let c = match (&sp, &v) { (Some(s), Some(v)) => s.contains(v), _ => false };
+            format!("{}{}{}", sp.is_some() as u8, v.is_some() as u8, c as u8)
+        }
+        // pep440.le <a> <b> : "<aOk><bOk><a <= b>"
+        "pep440.le" => {
+            use std::str::FromStr;
+            use pep508_rs::pep440_rs::Version;
+            let a = Version::from_str(&f[0]).ok();
+            let b = Version::from_str(&f[1]).ok();
+            let le = match (&a, &b) { (Some(a), Some(b)) => a <= b, _ => false };
+            format!("{}{}{}", a.is_some() as u8, b.is_some() as u8, le as u8)
+        }
         // pep508 <requirement> : what the PEP 508 library makes of a requirement string: "P<name>|<specifiers>" / "U" (URL) / "E" / "PANIC"
         "pep508" => {
             use std::str::FromStr;
